@@ -8,6 +8,7 @@
 #include "TFEL/Math/t2tot2.hxx"
 #include "TFEL/Math/t2tost2.hxx"
 #include "TFEL/Math/st2tot2.hxx"
+#include "TFEL/Math/tmatrix.hxx"
 #include "vsym/driver.hxx"
 #include "common/mandel.hxx"
 using namespace tfel::math;
@@ -162,6 +163,42 @@ template <class E> void c_st2tost2_change_basis(E& e) {
     ensure_vec_eq(e, "rotation " + std::to_string(k) + ": change_basis(A,r):change_basis(s,r)=change_basis(A:s,r)", lhs, rhs);
   }
 }
+// determinant of a fourth-order tensor = determinant of its matrix of (Mandel / storage) components. The generic branch goes through a
+// pivoted LU decomposition and returns 0 when a pivot is refused: every path must return the true determinant or that documented 0.
+template <unsigned short n, class T> T laplace_det(const tmatrix<n, n, T>& a) {
+  if constexpr (n == 1) return a(0, 0);
+  else {
+    T d = T(0);
+    for (unsigned short c = 0; c != n; ++c) {
+      tmatrix<n - 1, n - 1, T> s;
+      for (unsigned short i = 1; i != n; ++i) {
+        unsigned short cc = 0;
+        for (unsigned short j = 0; j != n; ++j) {
+          if (j == c) continue;
+          s(i - 1, cc++) = a(i, j);
+        }
+      }
+      const T t = a(0, c) * laplace_det<n - 1, T>(s);
+      d = (c % 2 == 0) ? d + t : d - t;
+    }
+    return d;
+  }
+}
+template <unsigned short N, class E> void c_st2tost2_det(E& e) {
+  using T = typename E::real;
+  constexpr unsigned short n = StensorDimeToSize<N>::value;
+  auto A = sym_st2tost2<N>(e, "A");
+  if constexpr (N == 2) {
+    // the generic (pivoted LU) branch: a fully symbolic 4x4 has thousands of pivoting paths; a symbolic 2x2 block plus a symbolic
+    // diagonal keeps every row-exchange pattern of the first two columns and a few dozen paths
+    for (unsigned short i = 0; i < n; ++i) for (unsigned short j = 0; j < n; ++j) if (i != j && (i >= 2 || j >= 2)) A(i, j) = T(0);
+  }
+  tmatrix<n, n, T> m;
+  for (unsigned short i = 0; i < n; ++i) for (unsigned short j = 0; j < n; ++j) m(i, j) = A(i, j);
+  const T d = det(A);
+  const T ref = laplace_det<n, T>(m);
+  e.ensure("det(A) = determinant of the component matrix (or the documented 0 on a refused pivot)", e.eq(d, ref) || e.eq(d, T(0)));
+}
 // ---- t2tot2 ------------------------------------------------------------------------------------------------------------
 template <unsigned short N, class E> void c_t2tot2(E& e) {
   using T = typename E::real;
@@ -200,6 +237,8 @@ C02_N(1)
 C02_N(2)
 C02_N(3)
 VSYM_CONTRACT("tensor3/change_basis", c_tensor_change_basis)
+VSYM_CONTRACT_B("st2tost2_1/det", (c_st2tost2_det<1u>), 4000)
+VSYM_CONTRACT_B("st2tost2_2/det", (c_st2tost2_det<2u>), 4000)
 VSYM_CONTRACT("st2tost2_1/push_forward", (c_st2tost2_push_forward<1u>))
 VSYM_CONTRACT("st2tost2_2/push_forward", (c_st2tost2_push_forward<2u>))
 VSYM_CONTRACT("st2tost2_3/change_basis(three rotations)", c_st2tost2_change_basis)
